@@ -33,7 +33,7 @@ CntRecord(k) == [nm \in { CntNames[i] : i \in 1..NC } |-> k[CHOOSE i \in 1..NC :
 
 Chan0 == [vol |-> 100, expr |-> 127, b |-> 127, soft |-> FALSE, prog |-> 0]
 Cells0 == [dv |-> {}, dc |-> {}, w9 |-> {}]
-St0 == [vm |-> 1, smod |-> FALSE, frb |-> FALSE, mv |-> 127, chans |-> [c \in 1..16 |-> Chan0] \o <<>>, notes |-> <<>>,
+St0 == [vm |-> 1, smod |-> FALSE, frb |-> FALSE, mv |-> 127, chans |-> [c \in 1..32 |-> Chan0] \o <<>>, notes |-> <<>>,
         cur |-> [c \in 1..24 |-> <<>>] \o <<>>, mem |-> <<>>, banks |-> <<>>, cells |-> Cells0]
 
 Init == l = 1 /\ pi = 0 /\ st = St0 /\ fails = <<>> /\ cnt = Cnt0 /\ drift = <<>> /\ exec = 0
@@ -45,8 +45,8 @@ B2I(b) == IF b THEN 1 ELSE 0
 \* instrument a NoteOn(ch, k) resolves to (bank 0 melodic by program / bank 0 percussive by key); i = -1: none
 NoIns == [i |-> -1]
 InsOf(s, ch, k) ==
-  LET p == IF ch = 9 THEN 1 ELSE 0
-      idx == IF ch = 9 THEN k ELSE s.chans[ch + 1].prog
+  LET p == IF ch % 16 = 9 THEN 1 ELSE 0
+      idx == IF ch % 16 = 9 THEN k ELSE s.chans[ch + 1].prog
       bi == FirstIdx(s.banks, LAMBDA bk : bk.p = p /\ bk.msb = 0 /\ bk.lsb = 0)
   IN IF bi = 0 THEN NoIns
      ELSE LET ii == FirstIdx(s.banks[bi].ins, LAMBDA r : r.i = idx) IN IF ii = 0 THEN NoIns ELSE s.banks[bi].ins[ii]
@@ -70,15 +70,15 @@ TlOps(w) == SelectSeq(w, LAMBDA e : e[1] = 0)
 (* A released percussion note (channel 9) lives on for its minimum life time (30 ms); the harness never
    advances time, so on channel 9 NoteOff and NoteOn with velocity 0 leave the note sounding. *)
 ApplyNotes(s, pc, w) ==
-  CASE pc.o = "off" -> IF pc.ch = 9 THEN s ELSE [s EXCEPT !.notes = SelectSeq(@, LAMBDA n : ~(n.ch = pc.ch /\ n.k = pc.k))]
+  CASE pc.o = "off" -> IF pc.ch % 16 = 9 THEN s ELSE [s EXCEPT !.notes = SelectSeq(@, LAMBDA n : ~(n.ch = pc.ch /\ n.k = pc.k))]
     [] pc.o = "on" ->
          LET rest == SelectSeq(s.notes, LAMBDA n : ~(n.ch = pc.ch /\ n.k = pc.k))
              ins == InsOf(s, pc.ch, pc.k)
              P == PatchOps(w)
-         IN IF pc.v = 0 THEN (IF pc.ch = 9 THEN s ELSE [s EXCEPT !.notes = rest])
+         IN IF pc.v = 0 THEN (IF pc.ch % 16 = 9 THEN s ELSE [s EXCEPT !.notes = rest])
             ELSE IF ins.i = -1 \/ P = <<>> THEN [s EXCEPT !.notes = rest]
             ELSE LET c == P[Len(P)][2]
-                     nn == [ch |-> pc.ch, k |-> pc.k, v |-> pc.v, ins |-> ins, c |-> c, soft |-> s.chans[pc.ch + 1].soft, perc |-> (pc.ch = 9)]
+                     nn == [ch |-> pc.ch, k |-> pc.k, v |-> pc.v, ins |-> ins, c |-> c, soft |-> s.chans[pc.ch + 1].soft, perc |-> (pc.ch % 16 = 9)]
                  IN [s EXCEPT !.notes = Append(SelectSeq(rest, LAMBDA n : n.c # c), nn)]
     [] OTHER -> s
 \* the notes a call has to re-level
